@@ -207,3 +207,11 @@ package oned
 //@   requires this.encoder != nil && 0 <= this.defaultMargin
 //@   ensures (r != nil) != (e != nil)
 //@   ensures r != nil ==> r.width >= width && r.height >= height && r.height >= 1
+
+// ---------------------------------------------------------------- decoding is total (C06): thin safety contracts
+//@ func code39DecodeExtended(encoded []byte) (s string, e error)
+//@   property C06 C03
+//@   ensures e != nil ==> implements(e, gozxing.FormatException)
+//@   modifies nothing
+//@   loop 0: invariant length == len(encoded) && 0 <= i && i <= length && fresh(decoded)
+//@   loop 0: decreases length - i
